@@ -36,7 +36,8 @@ fn leaves() -> Vec<&'static str> {
 /// number of depth-1 expressions
 fn depth1_count() -> u64 {
     let n = leaves().len() as u64;
-    n + 3 * n + (BINOPS.len() as u64 + 1) * n * n + 2 * n * n
+    let m = SMALL.len() as u64;
+    n + 3 * n + (BINOPS.len() as u64 + 1) * n * n + 2 * n * n + 2 * m * m * m
 }
 
 /// the i-th depth-1 expression over the full leaf set
@@ -79,6 +80,18 @@ fn depth1(i: u64) -> Option<String> {
         }
         return Some(format!("`{{{}}}-{{{}}}`", a, b));
     }
+    i -= n * n;
+    // if-expressions with elseif branches over the small leaf set: every combination of known / unknown conditions
+    let m = SMALL.len() as u64;
+    if i < m * m * m {
+        let (a, b, c) = (SMALL[(i / (m * m)) as usize], SMALL[((i / m) % m) as usize], SMALL[(i % m) as usize]);
+        return Some(format!("if {} then 'T' elseif {} then {} else 'E'", a, b, c));
+    }
+    i -= m * m * m;
+    if i < m * m * m {
+        let (a, b, c) = (SMALL[(i / (m * m)) as usize], SMALL[((i / m) % m) as usize], SMALL[(i % m) as usize]);
+        return Some(format!("if {} then 1 elseif {} then 2 elseif {} then 3 else 4", a, b, c));
+    }
     None
 }
 
@@ -90,7 +103,8 @@ fn depth2_random(r: &mut Rng, leaves: &[&str]) -> String {
         match r.below(12) {
             0 | 1 => format!("{}{}", r.pick(&UNOPS), wrap(go(r, leaves, depth - 1))),
             2 => format!("({})", go(r, leaves, depth - 1)),
-            3 => format!("if {} then {} else {}", go(r, leaves, depth - 1), go(r, leaves, depth - 1), go(r, leaves, depth - 1)),
+            3 if r.bool() => format!("if {} then {} else {}", go(r, leaves, depth - 1), go(r, leaves, depth - 1), go(r, leaves, depth - 1)),
+            3 => format!("if {} then {} elseif {} then {} else {}", go(r, leaves, depth - 1), go(r, leaves, depth - 1), go(r, leaves, depth - 1), go(r, leaves, depth - 1), go(r, leaves, depth - 1)),
             _ => format!("{} {} {}", wrap(go(r, leaves, depth - 1)), r.pick(&BINOPS), wrap(go(r, leaves, depth - 1))),
         }
     }
@@ -234,7 +248,17 @@ pub fn check_expr(expr: &str, cov: &mut Cov) -> Result<bool, (String, String)> {
         }
         // (2) side effects
         if !side {
+            // a claim that holds under the semantics of one of the two dialects is accepted (e.g. `1 % (1/0) <= 1 and t[k]`:
+            // the left operand is nan in Lua 5.1 and 1 in Luau, so whether `t[k]` runs depends on the dialect)
+            let quiet_in_one_dialect = runs.iter().any(|r| r.finished && r.events == 0) && runs.iter().any(|r| r.finished && r.events > 0);
+            if quiet_in_one_dialect {
+                cov.hit("accepted:side-effect-claim-true-in-one-dialect");
+            }
             for r in &runs {
+                if quiet_in_one_dialect {
+                    judged = true;
+                    break;
+                }
                 if r.finished && r.events > 0 {
                     return Err(("side-effect".into(), format!("has_side_effects(`{}`) = false, but in environment `{}` evaluating it performs {} external call(s) / metamethod invocation(s)", expr, env.0, r.events)));
                 }
@@ -296,7 +320,7 @@ impl Monitor for C08 {
         "C08"
     }
     fn rule_text(&self) -> String {
-        format!("expressions: all {} depth-1 expressions over {} leaves ({} literals incl. -0, huge, tiny, non-terminating decimals, inf/nan by division, numeric-looking / empty / non-UTF-8 strings; {} opaque leaves: identifier, field, index, call, varargs, parenthesised call, table, function) with the 3 unary and 16 binary operators, if-expressions and interpolated strings (exhaustive, seed independent); random depth 2-3 expressions over the full and over a small leaf set; each is parsed by darklua, asked to the Evaluator (evaluate / has_side_effects / can_return_multiple_values) and executed by the reference interpreter in up to 9 environments binding the opaque leaves to nil / numbers / numeric strings / false / plain tables / hostile objects whose metamethods log / functions returning 0-3 values, in both dialects; each closed expression is also folded by compute_expression and the folded program executed. Non-trivial = the evaluator made at least one of the three claims and some environment ran without error; distinct = hash of the expression text.", depth1_count(), leaves().len(), LITERALS.len(), OPAQUE.len())
+        format!("expressions: all {} depth-1 expressions over {} leaves ({} literals incl. -0, huge, tiny, non-terminating decimals, inf/nan by division, numeric-looking / empty / non-UTF-8 strings; {} opaque leaves: identifier, field, index, call, varargs, parenthesised call, table, function) with the 3 unary and 16 binary operators, if-expressions (one branch over all leaves; one and two elseif branches over a small leaf set of 8) and interpolated strings (exhaustive, seed independent); random depth 2-3 expressions over the full and over a small leaf set; each is parsed by darklua, asked to the Evaluator (evaluate / has_side_effects / can_return_multiple_values) and executed by the reference interpreter in up to 9 environments binding the opaque leaves to nil / numbers / numeric strings / false / plain tables / hostile objects whose metamethods log / functions returning 0-3 values, in both dialects; each closed expression is also folded by compute_expression and the folded program executed. Non-trivial = the evaluator made at least one of the three claims and some environment ran without error; distinct = hash of the expression text.", depth1_count(), leaves().len(), LITERALS.len(), OPAQUE.len())
     }
     fn assumptions(&self) -> Vec<String> {
         vec!["a definite value claimed by the evaluator is accepted when it matches the execution under Lua 5.1 OR Luau semantics; executions that raise an error or depend on unpinned behaviour are not judged".into(), "number -> string spellings are accepted within the uncertainty band of DESIGN.md A1".into()]
@@ -390,7 +414,9 @@ fn maybe_number(e: &Expr) -> bool {
         Expr::Number(..) => true,
         Expr::Paren(a) => maybe_number(a),
         Expr::Unary(UnOp::Neg | UnOp::Len, _) => true,
+        Expr::Binary(BinOp::And | BinOp::Or, a, b) => maybe_number(a) || maybe_number(b),
         Expr::Binary(op, _, _) => matches!(op, BinOp::Add | BinOp::Sub | BinOp::Mul | BinOp::Div | BinOp::Mod | BinOp::Pow | BinOp::IDiv),
+        Expr::IfExpr { clauses, else_ } => clauses.iter().any(|(_, v)| maybe_number(v)) || maybe_number(else_),
         _ => false,
     }
 }
@@ -468,7 +494,7 @@ fn shape(e: &Expr) -> String {
         }
         Expr::Unary(op, a) => format!("{}{}", op.text().trim(), shape(a)),
         Expr::Binary(op, a, b) => format!("({} {} {})", shape(a), op.text(), shape(b)),
-        Expr::IfExpr { clauses, else_ } => format!("if({}?{}:{})", shape(&clauses[0].0), shape(&clauses[0].1), shape(else_)),
+        Expr::IfExpr { clauses, else_ } => format!("if({}:{})", clauses.iter().map(|(c, v)| format!("{}?{}", shape(c), shape(v))).collect::<Vec<_>>().join(":"), shape(else_)),
         Expr::Interp(_) => "interp".into(),
         _ => "other".into(),
     }
